@@ -186,6 +186,28 @@ CHECKS = {
             "runtime; witnessed on every run by echo kernels (value / address / first element / write-back, before and after "
             "buffer growth, all 10 scalar types, both CPU contexts).",
             "7/C17"),
+    "C18": ("Lean 4 proof: one-step theorems over an abstract-heap model of HybridClass (locations = buffer + allocation + inline "
+            "path; dressed caches, _movable, Python attributes) for get/set/copy/move; executable model tied on generated "
+            "histories; Mirror oracle after every operation",
+            "Kernel-checked theorems: C18_num_get, C18_rename / C18_no_rename (attributes, also renamed ones, read the buffer data), "
+            "C18_ref_shares (a hybrid assigned to a Ref field of the same buffer is shared: the field records its location, the "
+            "attribute returns it, it becomes non-movable), C18_ref_across_buffers_refused (refused and nothing changes), "
+            "C18_ref_none, C18_move_refused (nested / referenced / reference-holding objects), C18_copy_fresh (a copy is a new "
+            "allocation in the requested buffer, distinct from every existing location).",
+            "Partial: the Python object graph is abstracted by hand and the invariant over whole histories (every cached dressed "
+            "child is the object the buffer data says is there) is checked by the oracle after every operation of generated "
+            "histories, not proved by induction.",
+            "7/C18"),
+    "C19": ("Lean 4 proof: round trip of the dictionary form with default elision and renaming (mutual induction over nesting depth "
+            "and field lists, key-lookup lemmas from distinct names), of the full dictionaries stored for references, and of the "
+            "JSON form of structs / 1-D arrays; real to_dict/from_dict/_to_json tied and round-tripped",
+            "Kernel-checked theorems: C19_dict (for every class universe with distinct names, every nesting depth and every value: "
+            "from_dict(to_dict(x)) = x; elided fields are refilled by exactly their defaults), C19_elide / C19_stored (a numeric "
+            "field is omitted iff it equals its declared default - under its python name, also when renamed; null references are "
+            "omitted), C19_full (the dictionary stored for a non-null reference rebuilds the referent), C19_json (T(x._to_json()) "
+            "= x for reference-free structs and one-dimensional arrays, nested arbitrarily).",
+            "Array-valued hybrid fields are covered by the oracle only.",
+            "7/C19"),
 }
 
 NOT_YET = {
